@@ -48,6 +48,7 @@ properties! {
     "C12" => c12,
     "C14" => c14,
     "C15" => c15,
+    "C16" => c16,
     "C18" => c18,
 }
 
